@@ -16,7 +16,13 @@ Streams
              (identifiers shared by entities of different kinds included); every href in B that leaves B
              must hit an existing file + anchor in A that documents the entity named by the link;
              every reference B makes must be linked, to A's page or - for names B defines itself -
-             to B's own; damaged / missing descriptions must not abort B's run.
+             to B's own; damaged / missing descriptions must not abort B's run.  Half of the pairs list A
+             among other external projects (before / after / between them): unusable ones (no modules.json,
+             no directory, truncated, not JSON, empty, not UTF-8, a directory, unreachable host, 404) and
+             usable ones (empty, an unrelated module; local and remote) - everything above must hold
+             unchanged: an unusable project costs its own links only.
+  multi    : real `load_external_modules` on 1-4 external projects (each: description exported / damaged, or
+             one of the ways of failing to fetch it; local and remote) vs the model's `loadAll`.
 """
 from __future__ import annotations
 
@@ -197,10 +203,11 @@ class patched_fetch:
     A's output directory is published at `base`; `<base>/modules.json` is served from `adoc`,
     every other URL is 404 / unreachable."""
 
-    def __init__(self, adoc: Path | None, log: list | None = None, base: str = REMOTE):
+    def __init__(self, adoc: Path | None, log: list | None = None, base: str = REMOTE, extra: dict | None = None):
         self.adoc = adoc
         self.base = base
         self.log = log if log is not None else []
+        self.extra = extra or {}        # further descriptions published on the same host: URL -> bytes
 
     def __enter__(self):
         ford = ford_mod()
@@ -213,6 +220,8 @@ class patched_fetch:
             self.log.append(url)
             if urlsplit(str(url)).hostname != REMOTE_HOST:
                 raise urllib.error.URLError("no network in the verification sandbox")
+            if str(url) in self.extra:
+                return FakeResponse(self.extra[str(url)])
             p = self.adoc / "modules.json" if self.adoc else None
             if str(url) != index_of(self.base) or p is None or not p.is_file():
                 raise urllib.error.HTTPError(url, 404, "Not Found", None, None)
@@ -424,6 +433,8 @@ def impl_index(written: str):
     try:
         with common.quiet():
             xp.load_external_modules(proj)
+    except Exception as e:  # the model knows no way for this to end the run: reported as a disagreement
+        return ["err", type(e).__name__, "-", "-"]
     finally:
         xp.urlopen, xp.dict2obj = o_url, o_d2o
     if not seen.get("remote"):
@@ -546,6 +557,165 @@ def import_stream(rep, drv, rng, docs, n, stats):
             rep.tie_broken(f"correspondence import ({tag}): model {short(mo)} vs implementation {short(im)}",
                            {"stream": "import", "tag": tag, "remote": remote, "base": base, "doc": doc,
                             "impl": im, "model": mo})
+    return len(cases), bad
+
+
+# --------------------------------------------------------------------------- several external projects
+
+_FAILURES = None
+
+
+def fetch_failures():
+    """name -> maker of a fresh exception of that class (the ways of failing of translate/c16.FETCH_ERRORS)"""
+    global _FAILURES
+    if _FAILURES is None:
+        _FAILURES = _fetch_failures()
+    return _FAILURES
+
+
+def _fetch_failures():
+    from translate.c16 import FETCH_ERRORS
+    make = {
+        "FileNotFoundError": lambda: FileNotFoundError(2, "No such file or directory"),
+        "IsADirectoryError": lambda: IsADirectoryError(21, "Is a directory"),
+        "PermissionError": lambda: PermissionError(13, "Permission denied"),
+        "URLError": lambda: urllib.error.URLError("unreachable"),
+        "HTTPError": lambda: urllib.error.HTTPError("http://ex.invalid/modules.json", 404, "Not Found", None, None),
+        "TimeoutError": lambda: TimeoutError("timed out"),
+        "JSONDecodeError": lambda: json.JSONDecodeError("Expecting value", "", 0),
+        "UnicodeDecodeError": lambda: UnicodeDecodeError("utf-8", b"\xff", 0, 1, "invalid start byte"),
+    }
+    missing = set(FETCH_ERRORS) - set(make)
+    if missing:
+        raise common.Infra(f"no constructor for the fetch failures {sorted(missing)}")
+    for n, c in FETCH_ERRORS.items():
+        if type(make[n]()) is not c:
+            raise common.Infra(f"constructor of {n} gives {type(make[n]())}")
+    return {n: make[n] for n in FETCH_ERRORS}
+
+
+def impl_loadall(projects):
+    """Real load_external_modules on a fake project listing several external projects, in order.
+    projects: [{"remote": bool, "base": written URL / absolute directory, "doc": json | None, "exc": name | None}]
+    The fetch is replaced: a project's description is served at the place a correct fetch asks for
+    (`<dir>/modules.json` resp. `<URL>/modules.json`), anything else is 404 / missing."""
+    ford = ford_mod()
+    import ford.external_project as xp
+    from ford.external_project import ENTITIES
+    cls2key = {c.__name__: k for k, c in ENTITIES.items()}
+    fails = fetch_failures()
+    ext, by_dir, by_url = {}, {}, {}
+    for i, p in enumerate(projects):
+        ext[f"p{i}"] = p["base"] if p["remote"] else p["base"].lstrip("/")
+        if p["remote"]:
+            by_url[index_of(p["base"])] = p
+        else:
+            by_dir[os.path.normpath(p["base"])] = p
+    proj = fake_project(ext, Path("/"))
+    o_local, o_url = xp.modules_from_local, xp.urlopen
+
+    def serve(p):
+        if p is None:
+            return None
+        if p["exc"] is not None:
+            raise fails[p["exc"]]()
+        return json.dumps(p["doc"])
+
+    def local(u):
+        text = serve(by_dir.get(os.path.normpath(str(u))))
+        if text is None:
+            raise FileNotFoundError(2, "No such file or directory")
+        return json.loads(text)
+
+    def remote_open(u, *a, **k):
+        u = str(getattr(u, "full_url", u))
+        text = serve(by_url.get(u))
+        if text is None:
+            raise urllib.error.HTTPError(u, 404, "Not Found", None, None)
+        return FakeResponse(text.encode("utf8"))
+
+    xp.modules_from_local, xp.urlopen = local, remote_open
+    try:
+        with common.quiet():
+            xp.load_external_modules(proj)
+    except Exception as e:  # whatever ends the run
+        return ["err", type(e).__name__]
+    finally:
+        xp.modules_from_local, xp.urlopen = o_local, o_url
+
+    def keys(o):
+        return {a: list(getattr(o, a)) for a in REFLECT if isinstance(getattr(o, a, None), dict) and getattr(o, a)}
+
+    out = {}
+    for ln in LISTS:
+        out[ln] = [[cls2key.get(type(o).__name__, type(o).__name__), render_val(o.name), render_val(o.external_url),
+                    "-" if o.parent is None else render_val(o.parent.name), keys(o)] for o in getattr(proj, ln)]
+    return ["ok", out]
+
+
+LOCAL_DIRS = ["/abs/A/doc", "/x", "/abs/with space/doc", "/srv/docs/b", "/y/z.d"]
+
+
+def multi_stream(rep, drv, rng, docs, n, stats):
+    """correspondence of the loop over `project.external`: 1-4 projects, each usable, damaged or failing"""
+    fail_names = sorted(fetch_failures())
+    cases = []
+    for k in range(n):
+        count = rng.choice([1, 2, 2, 2, 3, 3, 4])
+        locs = rng.sample(LOCAL_DIRS, count)
+        rems = rng.sample(REMOTE_BASES + ["http://ex.invalid/deep/er"], count)
+        projects, pattern = [], ""
+        for i in range(count):
+            r = rng.random()
+            doc, exc, tag = None, None, "G"
+            if r < 0.4:
+                exc, tag = rng.choice(fail_names), "F"
+            elif r < 0.55:
+                (doc, _), tag = damage(rng, rng.choice(docs)), "D"
+            else:
+                doc = rng.choice(docs)
+            remote = rng.random() < 0.4 and (doc is None or simple_rel_urls(doc))
+            base = rems[i] + rng.choice(["", "/"]) if remote else locs[i]
+            projects.append({"remote": remote, "base": base, "doc": doc, "exc": exc})
+            pattern += tag
+        cases.append((projects, pattern))
+    reqs = []
+    for projects, _ in cases:
+        r = ["c16.loadall", str(len(projects))]
+        for p in projects:
+            r += ["1" if p["remote"] else "0", p["base"]]
+            r += ["failed", p["exc"]] if p["exc"] is not None else ["got"] + enc_json(p["doc"], [])
+        reqs.append(r)
+    got = drv.batch(reqs)
+    bad = 0
+    for (projects, pattern), g in zip(cases, got):
+        im = impl_loadall(projects)
+        mo = model_import_result(g)
+        shape = "single" if len(pattern) == 1 else (
+            "failing-before-usable" if re.search(r"F.*G", pattern) else
+            "failing-after-usable" if re.search(r"G.*F", pattern) else
+            "all-failing" if set(pattern) == {"F"} else "no-failing")
+        key = f"multi:{shape}:{im[0]}"
+        stats[key] = stats.get(key, 0) + 1
+        stats[f"multi:projects={len(pattern)}"] = stats.get(f"multi:projects={len(pattern)}", 0) + 1
+        if im != mo:
+            bad += 1
+            rep.tie_broken(f"correspondence multi ({pattern}): model loadAll {short(mo)} vs implementation {short(im)}",
+                           {"stream": "multi", "pattern": pattern, "projects": projects, "impl": im, "model": mo})
+        # property oracle (from the statement, on the real code alone): when no listed project ends the run on its
+        # own, listing them together neither ends the run nor changes what each of them contributes
+        if len(projects) > 1:
+            singles = [impl_loadall([p]) for p in projects]
+            if all(s_[0] == "ok" for s_ in singles):
+                want = ["ok", {ln: [x for s_ in singles for x in s_[1][ln]] for ln in LISTS}]
+                if im != want:
+                    lost = "the run ends with " + im[1] if im[0] != "ok" else "; ".join(
+                        f"{ln}: {len(im[1][ln])} entities instead of {len(want[1][ln])}" for ln in LISTS
+                        if im[1][ln] != want[1][ln])
+                    rep.failing_input({"stream": "multi", "pattern": pattern, "projects": projects,
+                                       "oracle": "an external project contributes the same entities whatever else is listed "
+                                                 "(an unusable description costs only its own links)",
+                                       "why": lost, "together": im, "alone": singles}, None)
     return len(cases), bad
 
 
@@ -912,7 +1082,55 @@ def spoil(rng, adoc: Path, kind: str):
     return good
 
 
-def run_b(d: Path, B_files, ext_value: str, extra=None):
+SIBLING_KINDS = ["nodesc", "nodir", "truncated", "garbage", "empty", "notutf8", "isdir", "unreachable", "http404",
+                 "emptyok", "other-local", "other-remote"]
+SIBLING_USABLE = {"emptyok", "other-local", "other-remote"}
+
+
+def make_sibling(rs, d: Path, i: int, kind: str, good: bytes):
+    """Another external project next to A in B's `external:` option.
+    -> (the `name = location` entry, {URL: bytes} to be served by the fake host)"""
+    root = d / f"S{i}"
+    shutil.rmtree(root, ignore_errors=True)
+    name = f"sib{i}"
+    tiny = json.dumps({"ford-metadata": {"version": "0"}, "modules": [
+        {"name": f"zzsibling{i}", "external_url": f"./module/zzsibling{i}.html", "obj": "module", "pub_procs": {},
+         "pub_absints": {}, "pub_types": {}, "pub_vars": {}, "functions": [], "subroutines": [], "interfaces": [],
+         "absinterfaces": [], "types": [], "variables": []}]}).encode()
+    if kind == "unreachable":
+        return f"{name} = https://docs{i}.elsewhere.invalid/proj" + rs.choice(["", "/"]), {}
+    if kind == "http404":
+        return f"{name} = http://{REMOTE_HOST}/gone{i}" + rs.choice(["", "/"]), {}
+    if kind == "other-remote":
+        url = f"http://{REMOTE_HOST}/sibling{i}" + rs.choice(["", "/"])
+        return f"{name} = {url}", {index_of(url): tiny}
+    entry = f"{name} = ../S{i}/doc" + rs.choice(["", "/"])
+    if kind == "nodir":
+        return entry, {}
+    sd = root / "doc"
+    sd.mkdir(parents=True)
+    (sd / "index.html").write_text("<html><body>another project</body></html>")
+    p = sd / "modules.json"
+    if kind == "truncated":
+        p.write_bytes(good[: rs.randint(1, max(1, len(good) - 2))])
+    elif kind == "garbage":
+        p.write_text(rs.choice(["<html>404</html>", "not json at all", "{'single': 'quotes'}", "[1, 2,"]))
+    elif kind == "empty":
+        p.write_text("")
+    elif kind == "notutf8":
+        p.write_bytes(b'{"modules": ["\xff\xfe"]}')
+    elif kind == "isdir":
+        p.mkdir()
+    elif kind == "emptyok":
+        p.write_text(rs.choice(["[]", "{}", '{"ford-metadata": {"version": "0"}, "modules": []}']))
+    elif kind == "other-local":
+        p.write_bytes(tiny)
+    elif kind != "nodesc":
+        raise common.Infra(f"unknown sibling kind {kind}")
+    return entry, {}
+
+
+def run_b(d: Path, B_files, ext_value, extra=None):
     shutil.rmtree(d / "B", ignore_errors=True)
     opts = {"project": "projB", "external": ext_value}
     opts.update(extra or {})
@@ -1006,10 +1224,33 @@ def pair_case(rep, drv, rng, d: Path, k: int, tier: str, stats, docs_out, counte
     ext_value = {"local": f"a = {local_spelling}", "local-abs": f"a = {adoc}" + ("/" if k % 4 == 0 else ""),
                  "remote": f"a = {written}"}[mode]
     has_links = any(e.get("ford_link") for e in B["expect"]) or any(m["refs"] for m in B["modules"])
-    with patched_fetch(adoc, base=written):
+    # A among other external projects: listed before / after / between them; the others are unusable in the ways
+    # the run has to survive, or usable and unrelated.  Everything below is judged exactly as for A alone.
+    served, siblings = {}, []
+    if k % 4 in (1, 2):
+        rs = random.Random(common.digest([a_files, b_files, k]))
+        place = ["after", "before", "between"][(k // 4) % 3]       # where A stands relative to the others
+        kinds = [rs.choice(SIBLING_KINDS) for _ in range(2 if place == "between" else rs.choice([1, 1, 2]))]
+        if not set(kinds) - SIBLING_USABLE and rs.random() < 0.8:
+            kinds[0] = rs.choice(sorted(set(SIBLING_KINDS) - SIBLING_USABLE))
+        if len(kinds) == 2 and rs.random() < 0.5:
+            kinds[1] = rs.choice(sorted(SIBLING_USABLE))
+        entries = []
+        for i, kind in enumerate(kinds):
+            e, sv = make_sibling(rs, d, i + 1, kind, (adoc / "modules.json").read_bytes())
+            entries.append(e)
+            served.update(sv)
+        n_first = {"after": len(entries), "before": 0, "between": 1}[place]
+        ext_value = entries[:n_first] + [ext_value] + entries[n_first:]
+        siblings = [{"kind": kd, "entry": e} for kd, e in zip(kinds, entries)]
+        stats[f"pair:several-externals:A-{place}"] = stats.get(f"pair:several-externals:A-{place}", 0) + 1
+        for kd in kinds:
+            stats["pair:sibling:" + kd] = stats.get("pair:sibling:" + kd, 0) + 1
+    with patched_fetch(adoc, base=written, extra=served):
         rb = run_b(d, b_files, ext_value)
     counters["runs"] += 1
-    bcase = dict(base_case, external=ext_value, has_ford_links=has_links, description=None)
+    bcase = dict(base_case, external=ext_value, other_external_projects=siblings, has_ford_links=has_links,
+                 description=None)
     stats[f"pair:{mode}:{'links' if has_links else 'nolinks'}"] = stats.get(f"pair:{mode}:{'links' if has_links else 'nolinks'}", 0) + 1
     if mode == "remote":
         shape = ("host-only" if urlsplit(written).path in ("", "/") else "with-path") + (":slash" if written.endswith("/") else ":noslash")
@@ -1040,7 +1281,7 @@ def pair_case(rep, drv, rng, d: Path, k: int, tier: str, stats, docs_out, counte
         if mode == "local-abs":
             break
         good = spoil(rng, adoc, bad)
-        with patched_fetch(adoc, base=written):
+        with patched_fetch(adoc, base=written, extra=served):
             rb2 = run_b(d, {n: re.sub(r"\[\[([^\]]*)\]\]", r"\1", t) for n, t in b_files.items()}, ext_value)
         counters["runs"] += 1
         stats[f"bad:{bad}:{mode}:{'ok' if rb2['rc'] == 0 else 'abort'}"] = \
@@ -1228,6 +1469,7 @@ def run(tier: str, seed: int, replay: str | None = None) -> int:
     n_export = 40 if tier == "quick" else 400
     n_import = 400 if tier == "quick" else 4000
     n_lookup = 1500 if tier == "quick" else 15000
+    n_multi = 300 if tier == "quick" else 3000
     docs: list = []
     ev = 0
     with common.scratch_dir() as d:
@@ -1271,15 +1513,16 @@ def run(tier: str, seed: int, replay: str | None = None) -> int:
             docs.append({"ford-metadata": {"version": "0"}, "modules": []})
         n_imp, bad_imp = import_stream(rep, drv, rng, docs, n_import, stats)
         n_lk, bad_lk = lookup_stream(rep, drv, rng, n_lookup, stats)
+        n_mu, bad_mu = multi_stream(rep, drv, random.Random(seed * 7919 + 1605), docs, n_multi, stats)
     drv.close()
     rep.coverage.update(
-        evaluations=ev + n_imp + n_lk + counters["runs"],
+        evaluations=ev + n_imp + n_lk + n_mu + counters["runs"],
         distinct_nontrivial=len(counters["nontrivial"]),
         rule="pairs: distinct (A sources, B sources, mode) whose B output contains at least one link that leaves B "
              "and was checked against A's output; export/import/lookup stream sizes are listed separately",
         samples=counters["samples"],
-        traces_validated_against_impl=ev + counters["export_cmp"] + n_imp + n_lk,
-        export_cases=ev + counters["export_cmp"], import_cases=n_imp, lookup_cases=n_lk,
+        traces_validated_against_impl=ev + counters["export_cmp"] + n_imp + n_lk + n_mu,
+        export_cases=ev + counters["export_cmp"], import_cases=n_imp, lookup_cases=n_lk, multi_project_cases=n_mu,
         end_to_end_runs=counters["runs"], pairs_with_links_checked=counters["pairs_checked"],
         correspondence_disagreements=len(rep.tie_breaks),
         input_distribution=dict(sorted(stats.items())),
@@ -1288,7 +1531,8 @@ def run(tier: str, seed: int, replay: str | None = None) -> int:
     try:
         from translate import c16 as T
         t = T.extract(common.REPO)
-        rep.coverage["variant"] = {"except_clause": t["caughtSource"], "fetch_errors": dict(t["fetchErrors"])}
+        rep.coverage["variant"] = {"except_clause": t["caughtSource"], "fetch_errors": dict(t["fetchErrors"]),
+                                   "handler_exits": dict(t["handlerExits"]), "loop_shape": t["loopShape"]}
     except Exception:
         pass
     rep.assumptions += [
